@@ -59,7 +59,7 @@ CLAIMED = {
             'Decides that the closest-genomes order is produced by a stable ascending sort of the whole distance row (found the repaired unstable-argsort defect), truncated by a prefix slice afterwards, that the closest match is the first minimum, '
             'that every entry pairs genome and distance through the one index and derives its taxon from that distance; every other ordering call in the package is classified.',
             "np.argsort kind='stable' is stable, the default is not; np.argmin first minimum."),
-    'C10': ('program-dependence rule on the consensus fold (conflict latch) + structural guard rule on find_matches + bounded abstract evaluation of the parsed consensus_taxon / find_matches / strict classify on every rooted forest up to 5 nodes (6 in the thorough tier) x every order of up to 4 taxa, monotone and non-monotone thresholds + wiring rule for the --strict flag (click option -> QueryParams -> query_cmd -> query_parse -> query)',
+    'C10': ('program-dependence rule on the consensus fold (conflict latch) + structural guard rule on find_matches + bounded abstract evaluation of the parsed consensus_taxon / find_matches / strict classify on every rooted forest up to 5 nodes (6 in the thorough tier) x every order of up to 4 taxa, monotone and non-monotone thresholds + wiring rule for the --strict flag (click option -> QueryParams -> query_cmd -> query_parse -> query) + C08-A6 effect rule re-evaluated (no memo across calls / databases)',
             'NOTE: N1-N5 are decided by interpreting the parsed functions on a finite forest domain (bounded, DESIGN.md 12) next to the two structural rules. Decides necessary conditions: the fold cannot re-specialise after a conflict (latch initialised, set at every truncation, never cleared, tested before descending - found the repaired order-dependence defect), '
             'others / empty / no-common-ancestor exits, warning exactly under the conflicting set, failure exactly under no consensus, primary match = nearest candidate at or below the consensus.',
             'Correctness of trunk.index / suffix slicing as an LCA search for every forest is a hand argument (necessary conditions only).'),
